@@ -59,11 +59,23 @@ def items_of(spec):
     return it + [('domain', None)]
 
 
-def build_partial(spec, omit, counter):
-    """System with the items in ``omit`` left unassigned; every assigned object's calculate is wrapped to count calls"""
+def build_partial(spec, omit, counter, via='never-assigned'):
+    """System with the items in ``omit`` left unassigned; every assigned object's calculate is wrapped to count calls.
+    via='replaced-table': the System is first specified completely; then every table that is to have a gap is replaced by a
+    newly created table (pyPRISM.PairTable / Density / Diameter are public classes, the tables public attributes) that is filled
+    in except for the gap -- a user starting a table over on a System that is being re-used"""
     P = target()
     types = list(spec['types'])
     n = len(types)
+    if via == 'replaced-table':
+        s = build_partial(spec, [], counter)
+        partial = build_partial(spec, omit, counter)
+        for kind in sorted(set(o[0] for o in omit)):
+            if kind == 'domain':
+                s.domain = None
+            else:
+                setattr(s, kind, getattr(partial, kind))
+        return s
     s = P.System(types, kT=spec['kT'])
     omit = set(tuple(o) for o in omit)
 
@@ -108,6 +120,7 @@ class Missing(Sub):
             for r in (1, 2):
                 for omit in itertools.combinations(its, r):
                     yield {'system': si, 'omit': [list(o) for o in omit]}
+                    yield {'system': si, 'omit': [list(o) for o in omit], 'via': 'replaced-table'}
 
     def check(self, case):
         out = Outcome()
@@ -116,7 +129,7 @@ class Missing(Sub):
         kinds = '+'.join(sorted(o[0] for o in case['omit']))
         for how in ('createPRISM', 'solve'):
             counter = [0]
-            s = build_partial(spec, case['omit'], counter)
+            s = build_partial(spec, case['omit'], counter, case.get('via', 'never-assigned'))
             try:
                 if how == 'createPRISM':
                     S.quiet(s.createPRISM)
@@ -135,7 +148,7 @@ class Missing(Sub):
                 out.fail(sig + how + '-starts-calculation', '%s() evaluated %d potential/closure/omega objects before rejecting the system (missing %s)' % (
                     how, counter[0], case['omit']))
         out.nontrivial = True
-        out.label('rank=%d' % len(spec['types']), 'missing=' + kinds)
+        out.label('rank=%d' % len(spec['types']), 'missing=' + kinds, 'gap-via=' + case.get('via', 'never-assigned'))
         return out
 
 
